@@ -99,7 +99,8 @@ def ref_arnoldi_subdiag(A, v, m):
 MAPFORMS = ('identity_alias', 'reversal_view', 'buffer', 'zero_map', 'diag_basis')
 STIFF = ('stiff',)
 GENERAL_FORMS = ('jordan',)          # non-Hermitian: Arnoldi / general exponential only
-SMALL32 = ('small32',)             # single-precision start vector, operator of small norm
+SMALL32 = ('small32',)
+DECAY = ('decay',)                 # general matrix with rapidly decaying singular values: nearly dependent Krylov vectors             # single-precision start vector, operator of small norm
 
 
 def special(rng, n, form, vreal):
@@ -170,6 +171,10 @@ def special(rng, n, form, vreal):
         for ev, sz in blocks:
             sizes[ev] = max(sizes.get(ev, 0), sz)
         return dict(A=A, v=v, kdim=int(sum(sizes.values())), lam=np.array(lam), reach=np.array(sorted(sizes)))
+    if form == 'decay':
+        Qm = rand_unitary(rng, n, True); Pm = rand_unitary(rng, n, True)
+        A = Qm @ np.diag(np.logspace(0, -12, n)) @ Pm
+        return dict(A=A, v=v, kdim=n, lam=None, reach=None)
     if form == 'small32':
         P = build(rng, n, 'cherm' if not vreal else 'rsym', 'separated', n, radius=float(10.0 ** rng.uniform(-5, -3)), vreal=vreal)
         P['v'] = P['v'].astype(np.float32 if np.isrealobj(P['v']) else np.complex64)
